@@ -16,7 +16,7 @@ Fixpoint expected_audio (sc : list cmd) : list (list chunk) :=
   match sc with
   | [] => []
   | CPlay n xs :: r => chunkify n xs :: expected_audio r
-  | CPlayBad n xs k :: r => firstn k (chunkify n xs) :: expected_audio r   (* what the generator produces *)
+  | CPlayBad n xs k :: r => firstn k (chunkify n xs) :: expected_audio r   (* the iterable raises: k chunks *)
   | CClose :: _ => []
   | _ :: r => expected_audio r
   end.
@@ -30,17 +30,6 @@ Fixpoint expected_raises (sc : list cmd) : nat :=
   end.
 Fixpoint has_close (sc : list cmd) : bool :=
   match sc with [] => false | CClose :: _ => true | _ :: r => has_close r end.
-
-(* what the property text demands for every play command (the whole iterable, padded) *)
-Fixpoint demanded_audio (sc : list cmd) : list (list chunk) :=
-  match sc with
-  | [] => []
-  | CPlay n xs :: r | CPlayBad n xs _ :: r => chunkify n xs :: demanded_audio r
-  | CClose :: _ => []
-  | _ :: r => demanded_audio r
-  end.
-(* no play command of the script has a chunk generator that raises *)
-Definition script_ok (sc : list cmd) : bool := forallb cmd_ok sc.
 
 (* ---- boolean helpers on traces (chronological order) *)
 Fixpoint zlist_eqb (a b : list Z) : bool :=
